@@ -156,10 +156,11 @@ class RW1C(FieldAction):
     def elaborate(self, platform):
         m = Module()
 
-        for i, storage_bit in enumerate(self._storage):
-            with m.If(self.port.w_stb & self.port.w_data[i]):
+        # The field shape may be an enumeration or another custom shape; operate on plain values.
+        for i, storage_bit in enumerate(Value.cast(self._storage)):
+            with m.If(self.port.w_stb & Value.cast(self.port.w_data)[i]):
                 m.d.sync += storage_bit.eq(0)
-            with m.If(self.set[i]):
+            with m.If(Value.cast(self.set)[i]):
                 m.d.sync += storage_bit.eq(1)
 
         m.d.comb += [
@@ -210,10 +211,11 @@ class RW1S(FieldAction):
     def elaborate(self, platform):
         m = Module()
 
-        for i, storage_bit in enumerate(self._storage):
-            with m.If(self.clear[i]):
+        # The field shape may be an enumeration or another custom shape; operate on plain values.
+        for i, storage_bit in enumerate(Value.cast(self._storage)):
+            with m.If(Value.cast(self.clear)[i]):
                 m.d.sync += storage_bit.eq(0)
-            with m.If(self.port.w_stb & self.port.w_data[i]):
+            with m.If(self.port.w_stb & Value.cast(self.port.w_data)[i]):
                 m.d.sync += storage_bit.eq(1)
 
         m.d.comb += [
